@@ -443,6 +443,7 @@ import mir_jobs_mem     # noqa: E402,F401  (registers the wasm memory access job
 import mir_jobs_assert  # noqa: E402,F401  (registers the manifest resource constraint jobs)
 import mir_jobs_txval   # noqa: E402,F401  (registers the transaction header validation jobs)
 import mir_jobs_limits  # noqa: E402,F401  (registers the limits module jobs)
+import mir_jobs_auth    # noqa: E402,F401  (registers the access rule evaluation jobs)
 
 
 def _index():
